@@ -10,7 +10,7 @@ ASSUME = [
     "times outside the int64 nanosecond range (e.g. the zero time.Time) are outside the domain: Time.UnixNano is undefined for them",
     "the in-memory pipes are unbounded (an OS pipe holds 64 KB): a peer that stops reading while more than that is in flight can still block udf.Server.abort/Stop for ever (docs/notes/C07.md)",
     "keepalive sessions use a 400 ms timeout and wait for round trips counted on the wire; a watchdog that fires because the machine is busy repeats the session with a longer timeout (5 attempts, then exit 2) and never yields a verdict",
-    "fault scenarios run one child process each; a hang is declared after 20 s (the scenarios need milliseconds), a dead child is a line no action of the specification explains",
+    "fault scenarios run one child process each; a hang is declared after 60 s (the scenarios need milliseconds), a dead child is a line no action of the specification explains",
     "the model's pipes carry whole messages; the byte level is UDFFraming (radix 2 in the exhaustive instances, radix 128 against the real reader, sizes above 2^30 treated as too large because TLC integers are 32 bit)",
     "TLC fingerprint collisions are negligible; the libflux link stub is never executed",
 ]
@@ -78,26 +78,32 @@ def run(sc, tier, seed):
             raise V.Broken("model %s no longer shows the defect it is there to show (%s): the fault alphabet of the configuration is dead" % (cfg, exp))
 
     parts = 8
-    # ---- B1, byte level: real WriteMessage/ReadMessage under every split ----
-    out, meta = V.run_driver(sc, "c19frame", tier, seed)
-    R.add_meta(meta)
-    validate(sc, R, meta["trace_files"], "UDFFramingTrace.tla", "UDFFramingTrace.cfg",
-             "agent.ReadMessage did not return what the stream contains under this fragmentation", parts)
-    # ---- peer faults / data faults, one child process each (ties into C05) ----
-    out, meta = V.run_driver(sc, "c19fault", tier, seed, timeout=2400)
-    R.add_meta(meta)
-    validate(sc, R, meta["trace_files"], "UDFProtoTraceMC.tla", "UDFProtoFaultTrace.cfg",
-             "a peer/data fault had an outcome the protocol model does not allow (process died, hang, lost or invented output)", parts)
-    # ---- B1/B3, message level: sessions on the real udf.Server ----
-    out, meta = V.run_driver(sc, "c19", tier, seed, timeout=2400)
-    R.add_meta(meta)
-    validate(sc, R, meta["trace_files"], "UDFProtoTraceMC.tla", "UDFProtoTrace.cfg",
-             "session on the real udf.Server not explained by the protocol model (echo / wire / snapshot / stop)", parts)
-    # ---- the same below a real UDFNode in real tasks ----
-    out, meta = V.run_driver(sc, "c19task", tier, seed, timeout=2400)
-    R.add_meta(meta)
-    validate(sc, R, meta["trace_files"], "UDFProtoTraceMC.tla", "UDFProtoTrace.cfg",
-             "task with a UDF node not explained by the protocol model", parts)
+    stages = [
+        # B1, byte level: real WriteMessage/ReadMessage under every split
+        ("c19frame", "UDFFramingTrace.tla", "UDFFramingTrace.cfg",
+         "agent.ReadMessage did not return what the stream contains under this fragmentation"),
+        # peer faults / data faults, one child process each (ties into C05)
+        ("c19fault", "UDFProtoTraceMC.tla", "UDFProtoFaultTrace.cfg",
+         "a peer/data fault had an outcome the protocol model does not allow (process died, hang, lost or invented output)"),
+        # B1/B3, message level: sessions on the real udf.Server
+        ("c19", "UDFProtoTraceMC.tla", "UDFProtoTrace.cfg",
+         "session on the real udf.Server not explained by the protocol model (echo / wire / snapshot / stop)"),
+        # the same below a real UDFNode in real tasks
+        ("c19task", "UDFProtoTraceMC.tla", "UDFProtoTrace.cfg", "task with a UDF node not explained by the protocol model"),
+    ]
+    for drv, module, cfg, what in stages:
+        try:
+            out, meta = V.run_driver(sc, drv, tier, seed, timeout=2400)
+            R.add_meta(meta)
+            validate(sc, R, meta["trace_files"], module, cfg, what, parts)
+        except V.Broken as e:
+            # a stage that cannot run after an earlier stage has already reproduced a violation on the real code
+            # (a seeded change usually breaks more than one thing) must not turn the verdict into "check broken"
+            if not R.violations:
+                raise
+            V.log("stage %s could not be completed (%s); reporting the violations found before it" % (drv, str(e).splitlines()[0][:200]))
+            R.notes["stage_not_completed"] = drv
+            break
     return R.finish("model_checking", ASSUME)
 
 
